@@ -123,6 +123,8 @@ def bisect(hs, fmt, pos, ver, payloads, st, out):
 
 
 def describe(x):
+    if x == '':
+        return 'empty'
     if len(x) == 1:
         return 'U+%04X' % ord(x)
     return '+'.join('U+%04X' % ord(c) for c in x)
@@ -191,7 +193,7 @@ def meta_strings(maxlen):
     return out
 
 
-LOOKALIKES = ['n:1', 'n:1 kg', 's:x', 'm:', 'z:', 'x:', '-:', 'r:x', 'r:x y', 'u:x', 'b:x', 'd:2020-01-01', 'h:12:00', 't:2020-01-01T00:00:00Z UTC',
+LOOKALIKES = ['', 'n:1', 'n:1 kg', 's:x', 'm:', 'z:', 'x:', '-:', 'r:x', 'r:x y', 'u:x', 'b:x', 'd:2020-01-01', 'h:12:00', 't:2020-01-01T00:00:00Z UTC',
               'c:1,2', 'x:a:b', 'N', 'NA', 'M', 'R', 'T', 'F', 'INF', 'NaN', '1', '1kg', '@a', '[1]', '{"a":1}', '"x"', '>>', '<<', '>>\n', '\n\n', 'a\n\nb',
               '\r\n\r\n', 'ver:"3.0"', '\\u0041', '\\n', '\\$', '\\\\"', 'a b', ' x', 'x ', '\\\\u0041', 'C:\\data\\ubad0', '\\u005cn', u'\\\u00e9t\u00e9', u'\u00e9\\', '\\U0041']
 
